@@ -324,8 +324,19 @@ func session(c *vm.Ctx, r *vm.Rand, si int, sess *sessionServer) {
 			return 1<<14 - 8 + r.Intn(16)
 		case 3:
 			return r.Intn(3000)
+		case 4:
+			if r.Intn(3) == 0 {
+				// around 2^15 (the largest threshold used here) and past 2^16
+				return []int{1<<15 - 8 + r.Intn(16), 1<<16 - 8 + r.Intn(16), 70000}[r.Intn(3)]
+			}
 		}
 		return r.Intn(100)
+	}
+	// ids: mostly one-byte ones; every so often a session uses ids that take two VarInt bytes (unknown to the bot's
+	// tables, dispatched all the same)
+	idTop := 123
+	if r.Intn(4) == 0 {
+		idTop = 400
 	}
 	// handler set
 	ng, ns := r.Range(0, 6), r.Range(0, 6)
@@ -333,7 +344,7 @@ func session(c *vm.Ctx, r *vm.Rand, si int, sess *sessionServer) {
 		// large handler sets with many priority ties (sorting algorithms change behaviour with size)
 		ng, ns = r.Range(0, 40), r.Range(0, 40)
 	}
-	watched := int32(r.Range(1, 123)) // the id with specific handlers
+	watched := int32(r.Range(1, 123)) // the id with specific handlers (AddListener takes ids of the protocol's table only)
 	var specs []handlerSpec
 	prios := []int{-1, 0, 0, 1, 5}
 	for i := 0; i < ng; i++ {
@@ -358,7 +369,7 @@ func session(c *vm.Ctx, r *vm.Rand, si int, sess *sessionServer) {
 			group++
 			s2c = append(s2c, step{kind: "bundle-open", inGroup: group})
 			for k := r.Intn(11); k > 0; k-- {
-				id := int32(r.Range(1, 123))
+				id := int32(r.Range(1, idTop))
 				if r.Intn(3) == 0 {
 					id = watched
 				}
@@ -368,7 +379,7 @@ func session(c *vm.Ctx, r *vm.Rand, si int, sess *sessionServer) {
 			s2c = append(s2c, step{kind: "bundle-close", inGroup: group})
 			continue
 		}
-		id := int32(r.Range(1, 123))
+		id := int32(r.Range(1, idTop))
 		if r.Intn(3) == 0 {
 			id = watched
 		}
@@ -553,7 +564,7 @@ func session(c *vm.Ctx, r *vm.Rand, si int, sess *sessionServer) {
 	}()
 	sendErr := error(nil)
 	for i := 0; i < nC2S; i++ {
-		if err := cl.Conn.WritePacket(pk.Packet{ID: int32(r.Intn(60)), Data: body('C', uint32(i), sizeOf())}); err != nil {
+		if err := cl.Conn.WritePacket(pk.Packet{ID: int32(r.Intn(idTop)), Data: body('C', uint32(i), sizeOf())}); err != nil {
 			sendErr = err
 			break
 		}
